@@ -11,7 +11,11 @@ LastOr0(s) == IF s = <<>> THEN 0 ELSE s[Len(s)]
 
 genview == <<svc, mgr, leases, data, fetch,
              [i \in 1..Len(requests) |-> requests[i].mf],
-             LastOr0(manifests), LastOr0(versions)>>
+             LastOr0(manifests), LastOr0(versions),
+             \* which manifests are held / which versions were seen at all, not only the last ones: code that looks
+             \* through the whole list (de-duplication, "already seen") behaves differently after a version goes BACK
+             \* to an earlier value and the earlier manifest is submitted again
+             Range(manifests)>>
 
 GenBound == Len(requests) <= MaxQueue
 
